@@ -216,6 +216,10 @@ template <typename T, int L, glm::qualifier Q> static bool misc_ops(uint64_t i, 
 #define CA(OPR, OKFN, CMPV, WHAT) { bool ok = true; for (int q = 0; q < L; ++q) ok = ok && OKFN(a[q], b[q]) && LPOK(Q, a[q], b[q]); if (ok) { glm::vec<L, T, Q> x = v; x OPR w; for (k = 0; k < L; ++k) { T s = a[k]; s OPR b[k]; if (!cmp_lane(x[k], s, CMPV, QN<Q>::id == 2)) { o.res(bits_of(x[k]), bits_of(a[k])); o.exp(bits_of(s)); REPORT(L, Q, "%s " WHAT " (vec)") } } } \
     bool ok2 = true; for (int q = 0; q < L; ++q) ok2 = ok2 && OKFN(a[q], b[0]) && LPOK(Q, a[q], b[0]); if (ok2) { glm::vec<L, T, Q> x = v; x OPR b[0]; glm::vec<L, T, Q> y = v; y OPR glm::vec<1, T, Q>(b[0]); for (k = 0; k < L; ++k) { T s = a[k]; s OPR b[0]; if (!cmp_lane(x[k], s, CMPV, QN<Q>::id == 2) || !cmp_lane(y[k], s, CMPV, QN<Q>::id == 2)) { o.res(bits_of(x[k]), bits_of(y[k])); o.exp(bits_of(s)); REPORT(L, Q, "%s " WHAT " (scalar / vec1 right-hand side)") } } } }
   CA(+=, add_ok, VALUE, "+=") CA(-=, sub_ok, VALUE, "-=") CA(*=, mul_ok, VALUE, "*=") CA(/=, div_ok, VALUE, "/=")
+  // aliasing: the right-hand side is the vector itself, or a reference to one of its own components (every component must be combined with the OLD value)
+#define CAA(OPR, OKFN, CMPV, WHAT) { bool ok = true; for (int q = 0; q < L; ++q) ok = ok && OKFN(a[q], a[q]) && OKFN(a[q], a[L - 1]) && LPOK(Q, a[q], a[L - 1]); if (ok) { glm::vec<L, T, Q> x = v; x OPR x; glm::vec<L, T, Q> y = v; y OPR y[L - 1]; \
+      for (k = 0; k < L; ++k) { T s = a[k]; s OPR a[k]; T t = a[k]; t OPR a[L - 1]; if (!cmp_lane(x[k], s, CMPV, QN<Q>::id == 2) || !cmp_lane(y[k], t, CMPV, QN<Q>::id == 2)) { o.res(bits_of(x[k]), bits_of(y[k])); o.exp(bits_of(s), bits_of(t)); REPORT(L, Q, "%s " WHAT " with the right-hand side aliasing the vector / one of its components") } } } }
+  CAA(+=, add_ok, VALUE, "+=") CAA(-=, sub_ok, VALUE, "-=") CAA(*=, mul_ok, VALUE, "*=") CAA(/=, div_ok, VALUE, "/=")
   if constexpr (std::is_integral<T>::value) { CA(%=, div_ok, BITS, "%=") CA(&=, [](T, T) { return true; }, BITS, "&=") CA(|=, [](T, T) { return true; }, BITS, "|=") CA(^=, [](T, T) { return true; }, BITS, "^=") CA(<<=, shl_ok, BITS, "<<=") CA(>>=, shr_ok, BITS, ">>=")
     { glm::vec<L, T, Q> x = ~v; for (k = 0; k < L; ++k) if (x[k] != (T)~a[k]) { o.res(bits_of(x[k])); o.exp(bits_of((T)~a[k])); REPORT(L, Q, "%s operator~") } } }
   { bool ok = true; for (int q = 0; q < L; ++q) ok = ok && sub_ok((T)0, a[q]); if (ok) { glm::vec<L, T, Q> x = -v; for (k = 0; k < L; ++k) if (!cmp_lane(x[k], (T)(-a[k]), VALUE, false)) { o.res(bits_of(x[k])); o.exp(bits_of((T)(-a[k]))); REPORT(L, Q, "%s unary minus") } } }
